@@ -79,6 +79,8 @@ type Chain struct {
 	notifyRecvCalls  int
 	ErrNotifyRecv    error
 
+	DuringRescan func() // one-shot: runs inside the next Rescan, before RescanFinished is queued
+
 	Sends       []SendCall
 	RescanCalls int
 
@@ -596,6 +598,14 @@ func (c *Chain) Rescan(startHash *chainhash.Hash, addrs []btcutil.Address,
 		}
 	}
 	tip := c.best[len(c.best)-1]
+	if f := c.DuringRescan; f != nil {
+		// the backend's chain moves while the rescan is still running: whatever the callback
+		// does (Disconnect / Extend) is notified before RescanFinished for the block the rescan reached
+		c.DuringRescan = nil
+		c.mu.Unlock()
+		f()
+		c.mu.Lock()
+	}
 	c.push(&chain.RescanFinished{Hash: &tip.Hash, Height: tip.Height, Time: tip.Time})
 	return nil
 }
